@@ -227,6 +227,11 @@ func VerifC11WriteStepFS() {
 	src := vSrcBad
 	if goodSource {
 		src = vSrcGood
+		if skipFormat {
+			// written as rendered: every byte counts, also a lone carriage return inside a comment
+			// (the Go scanner does not end a line comment there)
+			src = "package p\n\n// a note\rstill the note\nfunc F() {}\n"
+		}
 	}
 	longText := "// edited by the user, and quite a bit longer than what the template renders ..............\npackage p\n\nfunc Mine() {}\n"
 	shortText := "package p\n"
